@@ -233,9 +233,16 @@ pub fn judge_jar(rep: &mut Report, inputs: &[(String, Class)], others: &[(String
                 let changing: BTreeMap<&str, &str> = exp.names.iter().filter(|(a, b)| a != b).map(|(a, b)| (a.as_str(), b.as_str())).collect();
                 let ren = |s: &str| changing.get(s).map(|x| x.to_string()).unwrap_or_else(|| s.to_string());
                 if let Some(mine) = exp.applying.iter().find(|r| &r.class == old).map(|r| nest_entry(r, &ren)) {
-                    // only the nest's own entry may remain of the entries about this class
-                    if let Some(av) = &mut alt.inner_classes { av.retain(|ic| ic.inner != me || *ic == mine); }
-                    if alt == obs { rep.count("jar.stale_self_entry_replaced (accepted)"); want = alt; }
+                    // of the entries about this class any stale one (every one but the nest's own) may be gone; nothing else may differ
+                    if let (Some(wv), Some(ov)) = (&want.inner_classes, &obs.inner_classes) {
+                        let mut rest = ov.clone(); let mut missing = vec![];
+                        for ic in wv { match rest.iter().position(|x| x == ic) { Some(k) => { rest.remove(k); } None => missing.push(ic.clone()) } }
+                        if rest.is_empty() && !missing.is_empty() && missing.iter().all(|ic| ic.inner == me) && ov.contains(&mine) {
+                            alt.inner_classes = Some(ov.clone());
+                        }
+                    }
+                    // only this one fact is settled here; whatever else differs (e.g. the frames the writer drops) is judged below
+                    if alt.inner_classes == obs.inner_classes && want.inner_classes != obs.inner_classes { rep.count("jar.stale_self_entry_replaced (accepted)"); want = alt; }
                 }
             }
         }
